@@ -68,6 +68,26 @@ Proof.
     + split; [intros _; right; right; split; [reflexivity|left; reflexivity]|reflexivity].
 Qed.
 
+(* a 200 to GET / HEAD - with or without bytes: HEAD, the media handler's own status - is given only
+   behind the key and credential checks (credential errors are never reported as 200) *)
+Lemma serve_c16c_200 : forall r e,
+  dq_meth r = MGet \/ dq_meth r = MHead ->
+  (forall c, auth_of (dq_creds_c16c r) (dq_sid_c16c r) = AuthErr c -> c <> 200%Z) ->
+  serve_gate_c16c r = Reply 200 e ->
+  first_some (dq_keys_c16c r) = Some KValid /\
+  exists u, auth_of (dq_creds_c16c r) (dq_sid_c16c r) = AuthUid u /\ u <> 0%N.
+Proof.
+  intros r e Hm Hc H. unfold serve_gate_c16c in H.
+  destruct (key_check (dq_keys_c16c r)) eqn:Hk; cbn [negb] in H;
+    [|destruct Hm as [Hm|Hm]; rewrite Hm in H; discriminate H].
+  destruct (auth_of (dq_creds_c16c r) (dq_sid_c16c r)) as [c| |u] eqn:Ha.
+  - exfalso. apply (Hc c eq_refl). destruct Hm as [Hm|Hm]; rewrite Hm in H; inversion H; reflexivity.
+  - destruct Hm as [Hm|Hm]; rewrite Hm in H; discriminate H.
+  - destruct (u =? 0)%N eqn:Hu; [destruct Hm as [Hm|Hm]; rewrite Hm in H; discriminate H|].
+    split; [apply key_check_source; exact Hk|].
+    exists u. split; [reflexivity|apply N.eqb_neq; exact Hu].
+Qed.
+
 Lemma serve_c16c_methods : forall r,
   dq_meth r <> MGet -> dq_meth r <> MHead -> dq_meth r <> MOptions ->
   serve_gate_c16c r = Reply 405 ENone.
